@@ -90,7 +90,9 @@ def gen_history(rng, tier, profile=None):
             if running:
                 ops.append(["X"])
         else:
-            ops.append(["X"])
+            # while the market is stopped every other round request is made anyway (a caller that does not look at
+            # the running flag): refused by design when the book is crossed, and the market is then used normally
+            ops.append(["XF"] if (not running and len(ops) % 2 == 0) else ["X"])
     if mode != "continuous" and not running:
         ops.append(["R", True])
         ops.append(["X"])
@@ -279,6 +281,14 @@ class DirectRun:
         elif k == "X":
             if m.is_running:
                 m._execution()
+        elif k == "XF":
+            try:
+                m._execution()
+                taps.hits["forced_round_on_stopped_market_returned"] += 1
+            except AssertionError:
+                if m.is_running:
+                    raise
+                taps.hits["forced_round_on_stopped_market_refused"] += 1
         elif k == "R":
             m._is_running = bool(op[1])
             taps.emit("running_set", mkt=m, flag=bool(op[1]))
